@@ -481,3 +481,48 @@ Definition op_plain (o : op) : bool :=
   | Terminal _ _ lits => forallb (fun p => ref_free (snd p) && plain (snd p)) lits
   | _ => true
   end.
+
+(* ---------------------------------------------------------------- the abstract spec of C12's routing *)
+(* no EventDataset(...) call anywhere in a tree *)
+Fixpoint no_ds {X} (t : gtree X) : bool :=
+  match t with
+  | Leaf _ => true
+  | G _ cls fs =>
+      negb (String.eqb cls "Call" && func_is fs "EventDataset") && forallb (fun fl => forallb no_ds (snd fl)) fs
+  end.
+
+(* histories that only derive streams from datasets with the stream operations, the supplied trees
+   (lambdas, literals) mentioning neither another stream's AST nor EventDataset(...) *)
+Definition op_derived (o : op) : bool :=
+  match o with
+  | NewStream _ _ => false
+  | Derive _ _ lam cb _ => ref_free lam && no_ds lam && forallb (fun t => ref_free t && no_ds t) cb
+  | MetaData _ lit => ref_free lit && no_ds lit
+  | Terminal _ _ lits => forallb (fun p => ref_free (snd p) && no_ds (snd p)) lits
+  | _ => true
+  end.
+
+(* the dataset each stream descends from: replay of the history *)
+Definition ds_step (st : list nat * nat) (o : op) (ok : bool) : list nat * nat :=
+  let (ds, n) := st in
+  if ok then
+    match o with
+    | NewDataset _ => ((ds ++ [n])%list, S n)
+    | NewStream _ _ => ((ds ++ [0])%list, n)
+    | Derive s _ _ _ _ | MetaData s _ | QMetaData s _ | Terminal s _ _ => ((ds ++ [nth s ds 0])%list, n)
+    | _ => st
+    end
+  else st.
+Fixpoint ds_replay (st : list nat * nat) (ops : list op) (os : list out) : list nat * nat :=
+  match ops, os with
+  | o :: r, x :: xs => ds_replay (ds_step st o (is_ostream x)) r xs
+  | _, _ => st
+  end.
+Definition ds_spec (ops : list op) (s : nat) : nat := nth s (fst (ds_replay ([], 0) ops (outs ops))) 0.
+
+(* the executor _get_executor finds for stream s *)
+Definition stream_executor (st : state) (s : nat) : res exid :=
+  match nth_error (streams st) s with
+  | Some x => match unfold (heap_ st) (root x) with Some t => exec_walk t | None => Err EDangling end
+  | None => Err EBadStream
+  end.
